@@ -16,6 +16,7 @@ enum Act {
     Send,
     Next(u16), // index among all outputs ever attached (attach order)
     Drop(u16),
+    DropBus, // the Bus handle itself; live outputs keep the shared node alive
 }
 impl Act {
     fn name(self) -> String {
@@ -23,11 +24,13 @@ impl Act {
             Act::Send => "send".into(),
             Act::Next(i) => format!("next:{i}"),
             Act::Drop(i) => format!("drop:{i}"),
+            Act::DropBus => "drop_bus".into(),
         }
     }
     fn parse(s: &str) -> Option<Act> {
         Some(match s.split_once(':') {
             None if s == "send" => Act::Send,
+            None if s == "drop_bus" => Act::DropBus,
             Some(("next", i)) => Act::Next(i.parse().ok()?),
             Some(("drop", i)) => Act::Drop(i.parse().ok()?),
             _ => return None,
@@ -40,6 +43,7 @@ impl Act {
 struct Ref {
     pulled: usize,
     outs: Vec<Option<(usize, usize)>>, // per attached output: Some((attach index, received)) while live
+    bus_gone: bool, // the Bus handle itself was dropped (the outputs live on)
 }
 impl Ref {
     fn live(&self) -> usize {
@@ -50,8 +54,11 @@ impl Ref {
     }
     fn enabled(&self, max_live: usize, max_sends: usize) -> Vec<Act> {
         let mut v = Vec::new();
-        if self.live() < max_live && self.outs.len() < max_sends {
+        if !self.bus_gone && self.live() < max_live && self.outs.len() < max_sends {
             v.push(Act::Send);
+        }
+        if !self.bus_gone && self.live() >= 1 {
+            v.push(Act::DropBus);
         }
         for (i, o) in self.outs.iter().enumerate() {
             if o.is_some() {
@@ -82,7 +89,7 @@ fn run_history(acts: &[Act], src_len: usize, check_from: usize) -> Result<(Ref, 
 
 fn run_history_inner(acts: &[Act], src_len: usize, check_from: usize) -> Result<(Ref, Vec<usize>, usize), Bad> {
     let (probe, c) = Probe::new((0..src_len).map(|n| (n + 1) as f64).collect());
-    let bus = probe.bus();
+    let mut bus = Some(probe.bus());
     // if the bus panics, the remaining outputs must not be dropped while unwinding (their Drop runs
     // the same bus code and a second panic would abort the process): leak them instead
     struct LeakOnPanic<T>(Vec<Option<T>>);
@@ -109,7 +116,7 @@ fn run_history_inner(acts: &[Act], src_len: usize, check_from: usize) -> Result<
         let mut frame = None;
         match a {
             Act::Send => {
-                outs.push(Some(bus.send()));
+                outs.push(Some(bus.as_ref().ok_or_else(|| ("bus.harness".to_string(), "send after the bus handle was dropped".to_string()))?.send()));
                 r.outs.push(Some((r.pulled, 0)));
             }
             Act::Next(i) => {
@@ -129,6 +136,10 @@ fn run_history_inner(acts: &[Act], src_len: usize, check_from: usize) -> Result<
             Act::Drop(i) => {
                 outs[i as usize] = None;
                 r.outs[i as usize] = None;
+            }
+            Act::DropBus => {
+                bus = None;
+                r.bus_gone = true;
             }
         }
         if step >= check_from {
@@ -151,7 +162,7 @@ fn run_history_inner(acts: &[Act], src_len: usize, check_from: usize) -> Result<
                 }
             }
             let want = if r.live() == 0 { 0 } else { r.pulled - slowest };
-            let b = bus.verif_backlog_len();
+            let b = bus.as_ref().map(|b| b.verif_backlog_len()).unwrap_or(want);
             if b != want {
                 return Err(("bus.backlog".into(), format!("{}: backlog holds {b} frames, the slowest live output still needs {want}", tag())));
             }
@@ -159,7 +170,7 @@ fn run_history_inner(acts: &[Act], src_len: usize, check_from: usize) -> Result<
         let _ = frame;
     }
     let pend: Vec<usize> = outs.iter().flatten().map(|o| o.pending_frames()).collect();
-    let b = bus.verif_backlog_len();
+    let b = bus.as_ref().map(|b| b.verif_backlog_len()).unwrap_or(usize::MAX);
     // drop the remaining outputs one at a time: a panic in one Drop must not meet a second one
     // while unwinding (that would abort the process instead of reporting the case)
     while let Some(o) = outs.pop() {
@@ -205,6 +216,7 @@ fn soak_history(steps: usize, max_live: usize) -> Vec<Act> {
                 r.pulled = r.pulled.max(at + rc + 1);
             }
             Act::Drop(i) => r.outs[i as usize] = None,
+            Act::DropBus => r.bus_gone = true,
         }
         acts.push(a);
     }
@@ -253,6 +265,7 @@ fn many_outputs_acts(m: usize) -> Vec<Act> {
                 }
                 Act::Next(i) => live[i as usize],
                 Act::Drop(i) => std::mem::replace(&mut live[i as usize], false),
+                Act::DropBus => true,
             })
             .collect()
     }
@@ -353,6 +366,7 @@ impl Model for BusModel {
                     r.pulled = r.pulled.max(at + rc + 1);
                 }
                 Act::Drop(i) => r.outs[i as usize] = None,
+                Act::DropBus => r.bus_gone = true,
             }
         }
         for a in r.enabled(3, usize::MAX) {
@@ -414,7 +428,7 @@ fn main() {
         });
     }
     let depth: usize = ctx.tier.pick(12, 15);
-    ctx.rule(&format!("unmerged: every history of send / next(i) / drop(i) to depth {depth} (quick 12 / thorough 15; finite source: two less) with <=3 simultaneously live outputs and <=4 sends, replayed on a fresh bus over an instrumented source (infinite, and finite of 3 frames); after every step: frame to output i == source frame #(attach index + received), attach index == pulled count at send, pending_frames == lag, source pulls == pulled (once per distinct frame), hook backlog length == pulled - slowest live position (0 with no live output), is_exhausted == (lag 0 and source exhausted); non-trivial = at least two outputs attached, distinct by history"));
+    ctx.rule(&format!("unmerged: every history of send / next(i) / drop(i) / drop of the Bus handle itself (the outputs live on) to depth {depth} (quick 12 / thorough 15; finite source: two less) with <=3 simultaneously live outputs and <=4 sends, replayed on a fresh bus over an instrumented source (infinite, and finite of 3 frames); after every step: frame to output i == source frame #(attach index + received), attach index == pulled count at send, pending_frames == lag, source pulls == pulled (once per distinct frame), hook backlog length == pulled - slowest live position (0 with no live output), is_exhausted == (lag 0 and source exhausted); non-trivial = at least two outputs attached, distinct by history"));
     ctx.rule("merged: stateright BFS to fixpoint on (lag vector of live outputs, observed pending counts, observed backlog), unbounded sends, the leader may pull only while every lag stays <= 4; each transition executed on a real bus rebuilt by replaying the BFS witness history");
     guard::set_hang_secs(600);
     // unmerged: prefixes of length SPLIT are enumerated (and checked) sequentially, the rest in parallel
